@@ -157,6 +157,150 @@ def array_semantics(sem):
     return issues
 
 
+def _u64(a):
+    return np.ascontiguousarray(a, dtype=np.float64).reshape(-1).view(np.uint64)
+
+
+def large_arrays(inp, out, lengths):
+    """Array calls at many lengths (tiling the main input set, rotated so that block boundaries fall on different
+    elements), compared element-wise and bit-for-bit with the scalar results of the same inputs (out[...]['scalar'],
+    which the check compares with the exact SPEC and the model)."""
+    issues = []
+    for unit, deg in (('deg', True), ('rad', False)):
+        xs = np.array([float.fromhex(h) for h in inp[unit]], dtype=np.float64)
+        if xs.size == 0:
+            continue
+        for key, name, f in (('y2h', 'yaw_to_heading', yaw_to_heading), ('h2y', 'heading_to_yaw', heading_to_yaw)):
+            sc = out['%s_%s' % (key, unit)]['scalar']
+            if any(v.startswith(('EXC', 'TYPE')) for v in sc):
+                continue        # already reported by the scalar comparison
+            ref = np.array([float.fromhex(v) for v in sc], dtype=np.float64)
+            for n in lengths:
+                idx = (np.arange(n) + (n * 7919) % xs.size) % xs.size
+                shapes = [(n,)]
+                if n >= 1024 and n % 8 == 0:
+                    shapes.append((n // 8, 8))
+                for shp in shapes:
+                    a = xs[idx].reshape(shp); keep = a.copy()
+                    kind = 'float64 shape %r' % (shp,)
+                    try:
+                        r = f(a, deg=deg)
+                    except Exception as e:  # noqa
+                        issues.append({'fn': name, 'unit': unit, 'input_kind': 'large-array', 'issue': 'exception', 'detail': '%s: %s' % (kind, type(e).__name__), 'length': n})
+                        continue
+                    if not isinstance(r, np.ndarray) or r.shape != shp:
+                        issues.append({'fn': name, 'unit': unit, 'input_kind': 'large-array', 'issue': 'bad-result-shape',
+                                       'detail': '%s gives %s of shape %r' % (kind, type(r).__name__, np.shape(r)), 'length': n})
+                        continue
+                    bad = np.nonzero(_u64(r) != _u64(ref[idx]))[0]
+                    if bad.size:
+                        j = int(bad[0])
+                        issues.append({'fn': name, 'unit': unit, 'input_kind': 'large-array', 'issue': 'array-differs-from-scalars', 'length': n,
+                                       'detail': '%s: %d of %d elements differ from the scalar results, first at flat index %d (input %r): array %s, scalar %s'
+                                                 % (kind, bad.size, n, j, float(a.reshape(-1)[j]), float(r.reshape(-1)[j]).hex(), float(ref[idx][j]).hex())})
+                    if (_u64(a) != _u64(keep)).any():
+                        issues.append({'fn': name, 'unit': unit, 'input_kind': 'large-array', 'issue': 'input-modified', 'detail': kind, 'length': n})
+    # keep one issue per (fn, unit, issue): the shortest array
+    best = {}
+    for it in issues:
+        k = (it['fn'], it['unit'], it['issue'])
+        if k not in best or it['length'] < best[k]['length']:
+            best[k] = it
+    return list(best.values())
+
+
+def history_semantics(sem):
+    """The result of a call depends only on the current contents of its argument: sequences of calls on one array
+    object with in-place changes of the array (and of earlier results) in between, alternating units and functions,
+    and arrays that are released and re-created.  Every result is compared bit-for-bit with the scalar calls on the
+    array's contents at that moment (contents are always permutations / selections of the given inputs)."""
+    issues = []
+
+    def issue(fn, unit, what, detail):
+        if not any(i['fn'] == fn and i['unit'] == unit and i['issue'] == what for i in issues):
+            issues.append({'fn': fn, 'unit': unit, 'input_kind': 'history', 'issue': what, 'detail': detail})
+
+    funcs = (('yaw_to_heading', yaw_to_heading), ('heading_to_yaw', heading_to_yaw))
+    cache = {}
+
+    def ref(name, f, a, deg):
+        outv = []
+        for v in np.asarray(a, dtype=np.float64).reshape(-1):
+            k = (name, deg, float(v).hex())
+            if k not in cache:
+                cache[k] = float(f(float(v), deg=deg)).hex()
+            outv.append(cache[k])
+        return outv
+
+    def same(r, want):
+        try:
+            return [float(v).hex() for v in np.asarray(r).reshape(-1)] == want
+        except Exception:  # noqa
+            return False
+
+    for unit, deg in (('deg', True), ('rad', False)):
+        xs = [float.fromhex(h) for h in sem.get(unit, [])]
+        if len(xs) < 8:
+            continue
+        half = len(xs) // 2
+        for name, f in funcs:
+            try:
+                # 1. convert; change the array in place (several ways); convert again
+                a = np.array(xs[:half], dtype=np.float64)
+                steps = [('initial contents', lambda a: None),
+                         ('after a[:] = a[::-1].copy()', lambda a: a.__setitem__(slice(None), a[::-1].copy())),
+                         ('after a[::3] = other values', lambda a: a.__setitem__(slice(None, None, 3), np.array(xs[half:half + len(a[::3])]))),
+                         ('after a.fill(v)', lambda a: a.fill(xs[-1])),
+                         ('after a[0] = v', lambda a: a.__setitem__(0, xs[half])),
+                         ('after np.copyto(a, other)', lambda a: np.copyto(a, np.array(xs[half:half + a.size]))),
+                         ('after a.sort()', lambda a: a.sort())]
+                for label, change in steps:
+                    change(a)
+                    r = f(a, deg=deg)
+                    if not same(r, ref(name, f, a, deg)):
+                        issue(name, unit, 'stale-or-history-dependent-result',
+                              'sequence of calls on one array object: the call %s does not return the conversion of the current contents' % label)
+                        break
+                # 2. changing an earlier RESULT must not change a later one
+                a = np.array(xs[:half], dtype=np.float64)
+                r1 = f(a, deg=deg)
+                if isinstance(r1, np.ndarray) and r1.flags.writeable:
+                    r1[...] = 12345.0
+                r2 = f(a, deg=deg)
+                if not same(r2, ref(name, f, a, deg)):
+                    issue(name, unit, 'stale-or-history-dependent-result', 'overwriting the array returned by one call changes what the next call on the same input returns')
+                # 3. alternating units on one object
+                a = np.array(xs[:half], dtype=np.float64)
+                for d in (deg, not deg, deg, deg, not deg):
+                    if not same(f(a, deg=d), ref(name, f, a, d)):
+                        issue(name, unit, 'stale-or-history-dependent-result', 'alternating deg=True/deg=False calls on one array object: a call with deg=%s returns other values than the scalar calls' % d)
+                        break
+                # 5. release and re-create arrays of the same size (address / id reuse)
+                for k in range(6):
+                    b = np.array(xs[k:k + half], dtype=np.float64)
+                    rb = f(b, deg=deg)
+                    okb = same(rb, ref(name, f, b, deg))
+                    del b, rb
+                    if not okb:
+                        issue(name, unit, 'stale-or-history-dependent-result', 'arrays created and released in a loop: conversion %d returns other values than the scalar calls' % k)
+                        break
+            except Exception as e:  # noqa
+                issue(name, unit, 'exception', 'call sequence raised %s: %s' % (type(e).__name__, e))
+        # 4. alternating the two functions on one object, with a change in between
+        try:
+            a = np.array(xs[:half], dtype=np.float64)
+            seq = [funcs[0], funcs[1], funcs[0], funcs[1], funcs[1], funcs[0]]
+            for i, (name, f) in enumerate(seq):
+                if i == 3:
+                    a[:] = a[::-1].copy()
+                if not same(f(a, deg=deg), ref(name, f, a, deg)):
+                    issue(name, unit, 'stale-or-history-dependent-result', 'alternating yaw_to_heading / heading_to_yaw on one array object (step %d): result differs from the scalar calls' % i)
+                    break
+        except Exception as e:  # noqa
+            issue('roundtrip', unit, 'exception', 'alternating call sequence raised %s' % type(e).__name__)
+    return issues
+
+
 def _readonly(a):
     a.flags.writeable = False
     return a
@@ -197,7 +341,8 @@ def main():
                 r.append('EXC:%s' % type(e).__name__)
         dflt[name] = r
     out['default_unit'] = dflt
-    out['array_semantics'] = array_semantics(inp.get('sem', {}))
+    out['array_semantics'] = (array_semantics(inp.get('sem', {})) + history_semantics(inp.get('sem', {}))
+                              + large_arrays(inp, out, inp.get('lengths', [])))
     json.dump(out, open(sys.argv[2], 'w'))
 
 
